@@ -10,7 +10,7 @@
    the caller calls Release. *)
 From Coq Require Import List NArith Bool.
 Import ListNotations.
-From OV Require Import Base.Bytes Base.Tree Model.Stream Proofs.Stream Proofs.StreamXml.
+From OV Require Import Base.Bytes Base.Tree Model.Stream Proofs.Stream Proofs.StreamXml Proofs.StreamJson.
 
 (* For every XML document, every target of the class and every Release pattern: the reader ends
    with EOF and the delivered snapshots are exactly the whole-document selection (same nodes,
@@ -26,6 +26,17 @@ Theorem xml_stream_eq_select :
       exists L, xrun pm pred has_filter false x_init rel (xdoc_events content) = (L, FEOF) /\
                 map fst L = whole_doc_selection pm pred (xdoc_tree content).
 Proof. exact xml_stream_eq_select_proof. Qed.
+
+(* The same for JSON, for every JSON value (scalars, arrays, objects at any level, also as the
+   whole document) and every target of the class, including targets that select the document
+   node itself ("." - the whole document is then the one record). *)
+Theorem json_stream_eq_select :
+  forall (pm : list name -> bool) (pred : tree -> bool) (has_filter : bool),
+    (has_filter = false -> forall t, pred t = true) ->
+    forall j rel, jwf j = true ->
+      exists L, jrun pm pred has_filter false j_init rel (jdoc_events j) = (L, FEOF) /\
+                map fst L = whole_doc_selection pm pred (jdoc_tree j).
+Proof. exact json_stream_eq_select_proof. Qed.
 
 (* "outermost matches of the path part, then the final predicates" is the recursion that stops
    at the first node on the path. *)
